@@ -1323,6 +1323,79 @@ Section Oracle.
       repeat split; try reflexivity; try lia; try (right; reflexivity).
   Qed.
 
+
+  (* set_flushing / set_finishing seen from the encoder *)
+  Lemma set_limit_einv p org e tr d1 tr1 :
+    einv p org e tr -> lzinv p d1 -> read_pos d1 = read_pos (e_lz e) -> write_pos d1 = write_pos (e_lz e) ->
+    acct tr1 = acct tr ->
+    ((pending_size d1 = pending_size (e_lz e) /\ ~ (0 < pending_size (e_lz e) /\ read_pos (e_lz e) < write_pos (e_lz e) - 1)) \/
+     (0 < pending_size (e_lz e) /\ Kp p d1)) ->
+    einv p org (with_lz e d1) tr1.
+  Proof.
+    intros I L1 R1 Wp1 Acc Pcase. injection Acc as E1 E2 E3 E4.
+    pose proof I as [[[Ha Hb] Hc [Hd He] [Hf Hg] Hpb] [Hr1 Hr2] Hmb [Hb1 Hb2] Hh Hdict Hpx Hu HU Hfill Hsym Hchunk Horg'].
+    constructor; unfold with_lz, pidx, logical_pos in *; cbn [e_lz read_ahead unc_size g_base rc_full]; try rewrite R1; try rewrite Wp1;
+      try assumption; try lia.
+    intros Hp0. destruct Pcase as [[Pq Pn]|[P1 P2]].
+    + right; right. lia.
+    + left; exact P2.
+  Qed.
+
+  (* the drain loop of flush / finish / start_independent_chunk: read_limit = write_pos - 1 *)
+  Lemma l2_drain_spec p org : wf_p p -> l2_hist_ok p -> forall fuel s,
+    l2inv p org s -> unc_size (l2_e _ s) <= UNC_BOUND p -> loop2_cond (l2_e _ s) = true ->
+    read_limit (e_lz (l2_e _ s)) = write_pos (e_lz (l2_e _ s)) - 1 ->
+    l2_pending _ s + 1 <= Z.of_nat fuel ->
+    okor (l2_drain PS parse chunkc fuel s) (fun s1 =>
+      l2inv p org s1 /\ l2_pending _ s1 = 0 /\ l2_chunk _ s1 = l2_chunk _ s /\
+      unc_size (l2_e _ s1) = 0 /\ rc_full (l2_e _ s1) = false /\ read_ahead (l2_e _ s1) = -1 /\
+      pidx (l2_e _ s1) = write_pos (e_lz (l2_e _ s1)) /\
+      write_pos (e_lz (l2_e _ s1)) = write_pos (e_lz (l2_e _ s)) /\
+      read_limit (e_lz (l2_e _ s1)) = read_limit (e_lz (l2_e _ s)) /\
+      finishing (e_lz (l2_e _ s1)) = finishing (e_lz (l2_e _ s)) /\
+      g_base (l2_e _ s1) = g_base (l2_e _ s) /\
+      sum_fill (l2_tr _ s1) = sum_fill (l2_tr _ s)).
+  Proof.
+    intros W HH. induction fuel as [|f IH]; intros s L Hub Hc Hrl Hfuel.
+    - exfalso. pose proof (l2_pending_cap p org s L) as Hpc. pose proof (l2i_e _ _ _ L) as I.
+      pose proof (ei_lz _ _ _ _ I) as [[? ?] ? ? ? ?]. pose proof (ei_ra _ _ _ _ I). pose proof (ei_unc _ _ _ _ I).
+      unfold pidx in *. lia.
+    - cbn [l2_drain].
+      pose proof (l2_pending_cap p org s L) as Hpc. pose proof L as [Lp Ln I Lpend Lunc Lbig Lcnn].
+      pose proof (ei_lz _ _ _ _ I) as [[Ha Hb] Hcw [Hd He] [Hf Hg] Hpb]. pose proof (ei_ra _ _ _ _ I) as [Hr1 Hr2].
+      pose proof (ei_unc _ _ _ _ I) as Hu0.
+      destruct (Z.leb_spec (l2_pending PS s) 0) as [Hz|Hpos].
+      { cbn [okor]. unfold loop2_cond in Hc. apply andb_true_iff in Hc as [_ Hc2]. apply negb_true_iff in Hc2.
+        unfold pidx in *.
+        split; [exact L|]. repeat split; try lia; try assumption. }
+      rewrite Lp.
+      eapply okor_bind; [apply (encode_for_lzma2_spec p org (l2_ps _ s) (l2_e _ s) (l2_tr _ s) W I Hub)|].
+      intros [[[b e1] ps1] tr1] (I1 & U1 & B1 & Y1 & Y1' & Y2 & Y3 & Y4 & Y5 & Y6 & Y9 & Y10 & Y11 & Y8 & YA).
+      assert (Hu1 : 1 <= unc_size e1).
+      { destruct (Z_le_dec 1 (unc_size (l2_e _ s))) as [Hge|Hlt]; [lia|].
+        assert (NQ : ~ quiet (l2_e _ s)) by (unfold quiet, pidx in *; lia).
+        specialize (Y10 NQ Hc). lia. }
+      pose proof (ei_fill _ _ _ _ I1) as Hf1. pose proof (ei_fill _ _ _ _ I) as Hf0.
+      pose proof (ei_chunk _ _ _ _ I1) as Hc1. pose proof (ei_chunk _ _ _ _ I) as Hc0. rewrite logical_pidx in Hc1, Hc0.
+      set (s' := mkL2 PS p e1 (l2_pending _ s) (l2_chunk _ s) (l2_unc _ s) (l2_new _ s) ps1 tr1).
+      assert (L' : l2inv p org s').
+      { constructor; unfold s'; cbn [l2_p l2_new l2_e l2_tr l2_pending l2_unc]; try assumption; try reflexivity; try lia. }
+      eapply okor_bind; [apply (write_chunk_spec p org s' W HH L'); unfold s'; cbn [l2_e]; lia|].
+      intros s2 (L2 & C2 & E2 & G2 & Un2 & Rc2 & Ra2 & F2 & Ch2 & P2).
+      unfold s' in *. cbn [l2_e l2_tr l2_pending l2_chunk] in *.
+      eapply okor_weaken.
+      { apply (IH s2 L2).
+        - rewrite Un2. unfold UNC_BOUND, SYM_MAX, LZMA2_UNCOMPRESSED_LIMIT. pose proof (wf_ea p W). lia.
+        - unfold loop2_cond. rewrite Un2, Rc2. reflexivity.
+        - rewrite E2. congruence.
+        - lia. }
+      intros s3 (L3 & P3 & C3 & X).
+      split; [exact L3|]. split; [exact P3|]. split; [congruence|].
+      rewrite E2, G2 in X.
+      destruct X as (X1 & X2 & X3 & X4 & X5 & X6 & X7 & X8 & X9).
+      repeat split; try assumption; try congruence; try lia.
+  Qed.
+
 End Oracle.
 
 (* =============================================================================================
